@@ -497,6 +497,7 @@ class Faults:
         raise ValueError(c)
     def opkind(s, kind, path):
         b = os.path.basename(path)
+        if s.be == 'db': return 'sqlite-io'       # SQLite's own journal/db I/O: the library only sees "a statement failed"; the raw operation is in the witness
         if b.startswith('token.'): f = b
         elif b.endswith('.object'): f = 'object'
         elif b.endswith('.lock'): f = 'lock'
@@ -539,6 +540,9 @@ class Faults:
             dd = S.dir_diff(dbefore, dafter, s.be)
             flags = []
             mk = {d[0] for d in md}
+            # an object that vanished under its handle and is back, attribute for attribute, under a new one
+            gone = sorted(repr(sorted(d[3].items())) for d in md if d[0] == 'removed'); back = sorted(repr(sorted(d[3].items())) for d in md if d[0] == 'added')
+            if gone and gone == back: mk -= {'added', 'removed'}; flags.append('mem-handle-replaced')
             if 'added' in mk: flags.append('mem-object-added')
             if 'removed' in mk: flags.append('mem-object-lost')
             if 'changed' in mk: flags.append('mem-attribute-changed')
